@@ -2157,7 +2157,7 @@ rv = .false.
             if not self.private_lines:
                 self.private_lines.append("")
             self.private_lines.append(
-                "private " + ", ".join(helper_info["private"])
+                "private " + ",\t ".join(helper_info["private"])
             )
 
     def gather_helper_code(self, fileinfo):
